@@ -13,10 +13,19 @@ def okerr(x):
 
 
 class Entry:
-    __slots__ = ('key', 'msg', 'sig', 'ok', 'hard_err')
+    __slots__ = ('key', 'msg', 'sig', 'ok', 'hard_err', 'okl')
 
-    def __init__(self, key, msg, sig, ok=True, hard_err=False):
-        self.key, self.msg, self.sig, self.ok, self.hard_err = key, msg, sig, ok, hard_err
+    def __init__(self, key, msg, sig, ok=True, hard_err=False, okl=None):
+        # okl: verdict in a legacy_compatibility build when it differs (only the range check on S is relaxed there)
+        self.key, self.msg, self.sig, self.ok, self.hard_err, self.okl = key, msg, sig, ok, hard_err, okl
+
+
+def legacy(label):
+    return 'legacy' in label
+
+
+def nonlegacy(label):
+    return 'legacy' not in label
 
 
 def make_honest(rng, n, keys):
@@ -46,6 +55,7 @@ def corrupt(rng, e, kind, keys):
         n = Entry(e.key, e.msg, e.sig[:32] + to32(rng.randrange(L)))
     elif kind == 'S+l':
         n = Entry(e.key, e.msg, e.sig[:32] + to32(le(e.sig[32:]) + L), hard_err=True)
+        n.okl = ref.ed_verify_predicate(n.key, n.msg, n.sig, legacy=True)
     elif kind == 'R-offcurve':
         while True:
             R = vals.rb(rng, 32)
@@ -89,8 +99,13 @@ def crafted(rng, keys, kind):
 
 def emit(ctx, entries, cls):
     exp = okerr(all(e.ok for e in entries))
-    ctx.add('sig.batch', lst([hx(e.msg) for e in entries]), lst([e.sig.hex() for e in entries]),
-            lst([e.key.hex() for e in entries]), expect=[exp, exp], cls=cls)
+    expl = okerr(all((e.ok if e.okl is None else e.okl) for e in entries))
+    args = (lst([hx(e.msg) for e in entries]), lst([e.sig.hex() for e in entries]), lst([e.key.hex() for e in entries]))
+    if exp == expl:
+        ctx.add('sig.batch', *args, expect=[exp, exp], cls=cls)
+    else:
+        ctx.add('sig.batch', *args, expect=[exp, exp], cls=cls, only=nonlegacy)
+        ctx.add('sig.batch', *args, expect=[expl, expl], cls=cls + ['legacy:S-range'], only=legacy)
 
 
 def parse_z(tok):
@@ -302,7 +317,7 @@ def task(prop, seed, size, cfgbins, sizes=(0, 1, 2, 3, 7), reps=1):
 
 def run(prop, tier, seed, t0):
     from .. import plan
-    cfgs = plan.ALL_CFGS
+    cfgs = plan.ALL_CFGS + ['simd-legacy']
     bins, notes, failed = plan.bins_for(cfgs, ('rel', 'chk') if tier == 'thorough' else ('rel',))
     if failed:
         return plan.fail_build(prop, failed)
